@@ -65,7 +65,7 @@ class Gen:
             return "OCTET STRING" + (" " + s if s else "")
         if k == "bits":
             s = self.size(t["sz"])
-            return "BIT STRING" + (" " + s if s else "")
+            return "BIT STRING" + (" { first(0), third(2), sixth(5) }" if t.get("named") else "") + (" " + s if s else "")
         if k == "seqof":
             s = self.size(t["sz"])
             return "SEQUENCE %sOF %s" % (s + " " if s else "", self.ref(t["of"]))
@@ -139,7 +139,7 @@ class Gen:
         if k == "null":
             return "Some(Null)"
         if k == "int":
-            return "num(%s)" % v
+            return ("bignum(%s)" if t.get("big") else "num(%s)") % v
         if k == "str":
             return "string(%s)" % v
         if k == "oct":
@@ -158,7 +158,7 @@ class Gen:
         if k == "null":
             return "null_json(%s)" % x
         if k == "int":
-            return "json!(*%s as i64)" % x
+            return ("big_json(*%s)" if t.get("big") else "json!(*%s as i64)") % x
         if k == "str":
             return "json!(%s.chars().map(|c| c as u32).collect::<Vec<_>>())" % x
         if k == "oct":
